@@ -20,7 +20,7 @@ import pyarrow as pa
 from pyarrow import ipc
 
 from harness.common import rpcutil
-from harness.common.svcgen import ScriptState
+from harness.common.svcgen import OUT_SCHEMA, Hdr, ScriptState
 from vgi_rpc.rpc import RpcServer, ShmPipeTransport, Stream, make_pipe_pair, make_unix_pair
 
 
@@ -30,6 +30,8 @@ class ProbeProtocol(Protocol):
     def echo(self, s: str) -> str: ...
     def boom(self, a: int) -> int: ...
     def badstream(self, a: int) -> Stream[ScriptState]: ...
+    def okstream(self, a: int) -> Stream[ScriptState]: ...
+    def hdrstream(self, a: int) -> Stream[ScriptState, Hdr]: ...
 
 
 class ProbeProtocolV(Protocol):
@@ -40,6 +42,8 @@ class ProbeProtocolV(Protocol):
     def echo(self, s: str) -> str: ...
     def boom(self, a: int) -> int: ...
     def badstream(self, a: int) -> Stream[ScriptState]: ...
+    def okstream(self, a: int) -> Stream[ScriptState]: ...
+    def hdrstream(self, a: int) -> Stream[ScriptState, Hdr]: ...
 
 
 class ProbeImpl:
@@ -58,6 +62,13 @@ class ProbeImpl:
     def badstream(self, a: int) -> Stream[ScriptState]:
         """A header-less stream whose init always fails: the server answers and then drains the client's input stream."""
         raise ValueError("init refused")
+
+    def okstream(self, a: int) -> Stream[ScriptState]:
+        """A header-less producer that finishes at once."""
+        return Stream(output_schema=OUT_SCHEMA, state=ScriptState(prog="[]"))
+
+    def hdrstream(self, a: int) -> Stream[ScriptState, Hdr]:
+        return Stream(output_schema=OUT_SCHEMA, state=ScriptState(prog="[]"), header=Hdr(h=1))
 
 
 ADD_SCHEMA = pa.schema([pa.field("a", pa.int64(), nullable=False), pa.field("b", pa.int64(), nullable=False)])
@@ -125,7 +136,9 @@ class Probe:
 
             self.ct._sock.shutdown(socket.SHUT_WR)
 
-    def send(self, data: bytes, half_close: bool = False, deadline: float = 5.0) -> dict[str, Any]:
+    def send(self, data: bytes, half_close: bool = False, deadline: float = 5.0, finish: bytes = b"") -> dict[str, Any]:
+        """Write `data`, wait for ONE reply stream, then write `finish` (what a lockstep peer sends only after it has seen the
+        reply, e.g. the end of a refused stream call's input stream), then the sentinel call."""
         out: dict[str, Any] = {"reply": None, "sentinel": None, "read_exc": None}
 
         def client() -> None:
@@ -142,6 +155,8 @@ class Probe:
                     out["read_exc"] = f"{type(e).__name__}: {str(e)[:100]}"
                     return
                 if not half_close:
+                    if finish:
+                        self.ct.writer.write(finish)
                     self.ct.writer.write(rpcutil.request_bytes("add", ADD_SCHEMA, {"a": 2, "b": 3}, protocol_version=self.version))
                     self.ct.writer.flush()
                     try:
